@@ -129,7 +129,10 @@ fn apply_edit(r: &mut Rng, kind: &str, m: &Model, extras: &BTreeMap<String, Stri
                 let fi = r.below(m2.files.len() as u64) as usize;
                 let pos = r.below(m2.files[fi].items.len() as u64 + 1) as usize;
                 let n = r.range(1, 99_999);
-                let text = match r.below(11) {
+                let text = match r.below(13) {
+                    // other crates have attributes called `command` too
+                    11 => format!("#[poise::command(slash_command)]\npub async fn bot_{n}(ctx: u32) -> Result<(), String> {{\n    let _ = ctx;\n    Ok(())\n}}\n", n = n),
+                    12 => format!("#[cli::command]\n#[allow(dead_code)]\nfn tool_{n}(verbose: bool) -> bool {{\n    verbose\n}}\n", n = n),
                     0 => format!("mod helpers_{n} {{\n    pub fn inner(x: u8) -> u8 {{\n        x\n    }}\n\n    pub struct Local {{\n        pub a: i32,\n    }}\n}}\n", n = n),
                     1 => format!("#[cfg(test)]\nmod tests_{n} {{\n    #[test]\n    fn works() {{\n        assert_eq!(1, 1);\n    }}\n}}\n", n = n),
                     2 => format!("macro_rules! noop_{n} {{\n    () => {{}};\n    ($x:expr) => {{\n        $x\n    }};\n}}\n", n = n),
@@ -475,6 +478,22 @@ impl Check for C13 {
                     p.faults.push(crate::interpose::FaultSpec { at, kind });
                 }
             }
+            // the last process cannot read one source file, or list one directory of the project, at all
+            if let Some(p) = procs.last_mut() {
+                // (schedule worlds only: the edit cases compare outcomes before and after an edit)
+                if s >= 2 && i % 2 == 0 {
+                    let at = if qr.chance(1, 3) {
+                        crate::interpose::FaultAt::PathOp {
+                            suffix: qr.pick(&["/src-tauri/src", "/commands", "/models", "/util", "/events", "/bulk"]).to_string(),
+                            op: crate::interpose::Op::OpenDir,
+                            nth: 0,
+                        }
+                    } else {
+                        crate::interpose::FaultAt::PathOp { suffix: ".rs".into(), op: if qr.chance(1, 2) { crate::interpose::Op::OpenR } else { crate::interpose::Op::Read }, nth: qr.below(5) as usize }
+                    };
+                    p.faults.push(crate::interpose::FaultSpec { at, kind: crate::interpose::FaultKind::Err(if qr.chance(1, 2) { libc::EIO } else { libc::EACCES }) });
+                }
+            }
         }
         let verbose: Vec<bool> = (0..s).map(|_| setup.entry == Entry::Cli && pr.chance(1, 3)).collect();
         let viz_world = pr.chance(1, 2);
@@ -575,8 +594,14 @@ impl Check for C13 {
                 if moved {
                     std::fs::rename(&w_run.root, &w.root).expect("move world back");
                 }
+                let met_read_error = c.procs[k].faults.iter().any(|f| matches!(f.kind, crate::interpose::FaultKind::Err(_)));
                 match res {
                     Ok(f) => outs.push(f),
+                    // a run that could not read a source file or list a source directory may fail;
+                    // if it reports success its files are compared like everybody else's
+                    Err(_) if met_read_error && k > 0 => {
+                        co.count("runs_failed_by_an_injected_read_error(tolerated)", 1);
+                    }
                     Err(e) => {
                         if k == 0 {
                             co.discard = Some(format!("first forced run failed: {}", e));
